@@ -179,15 +179,26 @@ pub fn check_case(c: &Case) -> Outcome {
         if delta > 30.0 {
             continue; // exp(-delta) below rounding: formula degenerate, only the norm is judged
         }
-        let pn: Vec<f64> = before.iter().map(|x| x / nb).collect();
-        let (exp, exp_dke) = esh_reference(g, &pn, *step);
+        // Conditioning: with alpha = p.e -> -1 the update cancels (1 + alpha) against rounding; the relative
+        // error of the closed form is about u / (2 zeta + (1 + alpha)(1 - zeta)).
+        let alpha: f64 = before.iter().zip(g).map(|(p, gg)| p * gg / gn).sum();
+        let zeta = (-delta).exp();
+        // (the component along the gradient is (1 + alpha) after the 2 zeta terms cancel, so the relevant
+        // condition number is 1 / (1 + alpha))
+        let _ = zeta;
+        let cond = 1.0 / (1.0 + alpha).abs().max(1e-300);
+        let tol = 1e-8 + 1e-14 * cond;
+        if tol > 1e-3 {
+            continue; // momentum exactly opposite to the gradient: closed form numerically undefined
+        }
+        let (exp, exp_dke) = esh_reference(g, before, *step);
         for i in 0..d {
-            if !((after[i] - exp[i]).abs() <= 1e-8) {
+            if !((after[i] - exp[i]).abs() <= tol) {
                 o.set_fail("C18:esh-closed-form", format!("ESH update {k} coordinate {i}: momentum {:e}, closed form {:e} (delta {delta:e})", after[i], exp[i]));
                 return o;
             }
         }
-        if !((dke - exp_dke).abs() <= 1e-8 * (1.0 + exp_dke.abs())) {
+        if !((dke - exp_dke).abs() <= tol * ((d - 1) as f64) * (1.0 + exp_dke.abs())) {
             o.set_fail("C18:esh-delta-ke", format!("ESH update {k}: reported kinetic-energy change {dke:e}, closed form {exp_dke:e}"));
             return o;
         }
